@@ -53,6 +53,18 @@ def impl_map(cfg, code, t, rests, rng, res):
                                  f'outcome={r[:1]} calls={len(trace)}')
             if all(u[0] == 0 for u in ups):
                 want = [tuple([l] + [u[1][i] for u in ups]) for i, l in enumerate(ls)]
+                # independently of flatten_up_to: sub_i(rest) is what the i-th accessor resolves to in rest
+                # (skipped where a custom node declares equal entries for two children: such paths are ambiguous)
+                accs = attempt(lambda: sp.accessors())
+                pths = attempt(lambda: len({repr(p) for p in sp.paths()}) == sp.num_leaves)
+                if accs[0] == 0 and pths == (0, True):
+                    for u, r_ in zip(ups, rs):
+                        for i, a in enumerate(accs[1]):
+                            got = attempt(lambda: a(r_))
+                            if got[0] == 0 and got[1] is not u[1][i]:
+                                res.fail('sub_i(rest) handed to f is not the subtree of rest located at the i-th leaf\'s path', case,
+                                         f'leaf {i} path {sp.paths()[i]!r}')
+                                break
                 if code < 100:
                     if len(trace) != len(want) or any(any(a is not b for a, b in zip(x, y)) or len(x) != len(y)
                                                       for x, y in zip(trace, want)):
